@@ -68,7 +68,12 @@ pub fn walpha(name: &str) -> Vec<f64> {
         "w01" => vec![0.0, 1.0],
         "w012" => vec![0.0, 1.0, 2.0],
         "wf" => vec![0.1, 0.2, 0.3],
+        "wf2" => vec![0.1, 0.2],
+        "w12inf" => vec![1.0, 2.0, f64::INFINITY],
         "wneg" => vec![-5.0, 1.0, 2.0],
+        // weights whose sums overflow or are infinite (gains become NaN): only for reproducibility (C17)
+        "winf" => vec![1.0, f64::INFINITY],
+        "wmax" => vec![1.0, 1.0e308],
         // exact powers of two far from 1: every sum of a few of them is exact, so the oracles stay exact, while any
         // absolute tolerance or magnitude assumption in the code under check shows (scale invariance)
         "wtiny" => vec![2f64.powi(-60), 2f64.powi(-59)],
@@ -86,6 +91,8 @@ pub struct Family {
     pub orders: Vec<(u8, u8)>,
     /// only graphs with at least this many edges
     pub min_edges: usize,
+    /// only graphs with at most this many edges (checked on the slot digits, before the graph is built)
+    pub max_edges: usize,
     /// every graph is checked once after each primer call (see `primers`) made on the same thread
     pub primed: bool,
     /// query -> mutate -> query: every graph is checked, then mutated in place (see `MUTATION_LABELS`), then
@@ -94,17 +101,17 @@ pub struct Family {
 }
 
 pub fn fam(kind: Kind, n: usize, walpha: &'static str, orders: &[(u8, u8)]) -> Family {
-    Family { kind, n, walpha, orders: orders.to_vec(), min_edges: 0, primed: false, histories: false }
+    Family { kind, n, walpha, orders: orders.to_vec(), min_edges: 0, max_edges: usize::MAX, primed: false, histories: false }
 }
 
 /// the same family, each graph checked after every primer call on the same thread
 pub fn fam_primed(kind: Kind, n: usize, walpha: &'static str, orders: &[(u8, u8)]) -> Family {
-    Family { kind, n, walpha, orders: orders.to_vec(), min_edges: 0, primed: true, histories: false }
+    Family { kind, n, walpha, orders: orders.to_vec(), min_edges: 0, max_edges: usize::MAX, primed: true, histories: false }
 }
 
 /// the same family with query -> mutate -> query histories on every graph
 pub fn fam_hist(kind: Kind, n: usize, walpha: &'static str, orders: &[(u8, u8)]) -> Family {
-    Family { kind, n, walpha, orders: orders.to_vec(), min_edges: 0, primed: false, histories: true }
+    Family { kind, n, walpha, orders: orders.to_vec(), min_edges: 0, max_edges: usize::MAX, primed: false, histories: true }
 }
 
 pub const MUTATION_LABELS: [&str; 6] = [
@@ -365,8 +372,8 @@ pub fn parse_case(case: &str) -> Option<(Family, u64, u8, u8, String)> {
     if !(p.len() == 7 || (p.len() == 8 && (p[7].starts_with('P') || p[7].starts_with('H')))) || p[0] != "g" {
         return None;
     }
-    let wa: &'static str = ["u", "w1", "w12", "w123", "w01", "w012", "wf", "wneg", "wtiny", "whuge"].iter().find(|x| **x == p[3]).copied()?;
-    let f = Family { kind: Kind::from_idx(p[1].parse().ok()?), n: p[2].parse().ok()?, walpha: wa, orders: vec![], min_edges: 0, primed: p.len() == 8 && p[7].starts_with('P'), histories: p.len() == 8 && p[7].starts_with('H') };
+    let wa: &'static str = ["u", "w1", "w12", "w123", "w01", "w012", "wf", "wneg", "wtiny", "whuge", "winf", "wmax", "wf2", "w12inf"].iter().find(|x| **x == p[3]).copied()?;
+    let f = Family { kind: Kind::from_idx(p[1].parse().ok()?), n: p[2].parse().ok()?, walpha: wa, orders: vec![], min_edges: 0, max_edges: usize::MAX, primed: p.len() == 8 && p[7].starts_with('P'), histories: p.len() == 8 && p[7].starts_with('H') };
     Some((f, p[4].parse().ok()?, p[5].parse().ok()?, p[6].parse().ok()?, extra))
 }
 
@@ -379,6 +386,13 @@ pub fn case_primer(case: &str) -> Option<usize> {
     } else {
         None
     }
+}
+
+/// number of edges of slot assignment `idx` without building the graph
+pub fn edge_count_of(f: &Family, idx: u64) -> usize {
+    let vals = f.slot_values();
+    let d = digits(idx, vals.len() as u64, f.slots().len());
+    d.iter().map(|&k| vals[k as usize].len()).sum()
 }
 
 pub fn build(f: &Family, idx: u64, no: u8, eo: u8) -> Built {
@@ -574,7 +588,9 @@ pub fn chunk_of(fam: &Family) -> u64 {
     if fam.primed || fam.histories {
         return 1;
     }
-    (fam.count() / 48).clamp(4, CHUNK)
+    // several graphs share a thread in any case when there are several order / route variants per assignment
+    let min = if fam.orders.len() >= 4 { 1 } else if fam.orders.len() >= 2 { 2 } else { 4 };
+    (fam.count() / 48).clamp(min, CHUNK)
 }
 
 /// Re-runs the chunk containing `case` from its start on a fresh thread (same hash environment as
@@ -583,17 +599,26 @@ pub fn replay_chunk<F>(case: &str, orders: &[(u8, u8)], min_edges: usize, hash_s
 where
     F: Fn(&Built, bool) + Sync,
 {
+    replay_chunk_bounded(case, orders, min_edges, usize::MAX, hash_seed, f)
+}
+
+pub fn replay_chunk_bounded<F>(case: &str, orders: &[(u8, u8)], min_edges: usize, max_edges: usize, hash_seed: u64, f: F) -> bool
+where
+    F: Fn(&Built, bool) + Sync,
+{
     let (fam, idx, no, eo, _) = match parse_case(case) {
         Some(x) => x,
         None => return false,
     };
+    let mut fam = fam;
+    fam.orders = orders.to_vec(); // the chunk size depends on the number of order variants
     let lo = idx - idx % chunk_of(&fam);
     let want_primer = case_primer(case);
     let r = on_fresh_thread_scoped(hash_seed, || {
         for i in lo..=idx {
             for &(n2, e2) in orders {
                 let mut b = build(&fam, i, n2, e2);
-                if b.edges.len() < min_edges {
+                if b.edges.len() < min_edges || b.edges.len() > max_edges {
                     continue;
                 }
                 if fam.histories {
@@ -678,6 +703,10 @@ where
         }
         let lo = ci as u64 * chunk;
         let hi = (lo + chunk).min(total);
+        if fam.max_edges != usize::MAX && (lo..hi).all(|i| edge_count_of(fam, i) > fam.max_edges) {
+            done.fetch_add(hi - lo, Ordering::Relaxed);
+            return; // nothing of this chunk is in the family: no thread needed
+        }
         // one fresh thread (= one hash-key environment) per chunk; a case is replayed by
         // re-running its chunk from the start on a fresh thread with the same seed
         let r = on_fresh_thread_scoped(hash_seed, || {
@@ -685,6 +714,9 @@ where
             let mut graphs = 0u64;
             let mut calls = 0u64;
             for idx in lo..hi {
+                if fam.max_edges != usize::MAX && edge_count_of(fam, idx) > fam.max_edges {
+                    continue;
+                }
                 for &(no, eo) in &fam.orders {
                     let mut b = build(fam, idx, no, eo);
                     if b.edges.len() < fam.min_edges {
